@@ -7,6 +7,17 @@ use crate::plan::{Action, Api, Plan, Step, ALL};
 use crate::prng::Rng;
 
 pub const N_KINDS: usize = KIND_NAMES.len();
+
+static YIELDS: std::sync::atomic::AtomicBool = std::sync::atomic::AtomicBool::new(false);
+
+/// Hooks build (`--cfg fpdec_verif`) started with `--yields`: plans may
+/// pre-empt threads at the library's scheduling points.
+pub fn enable_yields(on: bool) {
+    YIELDS.store(on, std::sync::atomic::Ordering::SeqCst);
+}
+pub fn yields_enabled() -> bool {
+    YIELDS.load(std::sync::atomic::Ordering::SeqCst)
+}
 pub const N_PERSONALITIES: usize = 7;
 pub const PERSONALITY_NAMES: [&str; N_PERSONALITIES] = [
     "uniform",
@@ -42,13 +53,21 @@ pub struct Cfg {
     pub f_sink_err: bool,
     pub f_dtor: bool,
     pub f_reent: bool,
+    /// hooks build only: pre-emption at the library's scheduling points
+    pub f_yield: bool,
     pub personality: usize,
     /// 0 flat from the root, 1 chain (newest spawns), 2 tree (whoever acts)
     pub spawn_shape: u8,
     pub builder_pct: u32,
     pub ref_per_event: bool,
+    pub ref_process: bool,
     pub distinct_mode_pct: u32,
     pub pct_depth: u32,
+    /// one `churn` step (at step index, n threads, first mode) in this run
+    pub churn: Option<(u32, u16, u8)>,
+    /// chance that an operation is a verbatim repetition of an earlier one
+    /// of the same run (same operands, usually another thread / mode)
+    pub repeat_pct: u32,
 }
 
 impl Cfg {
@@ -59,7 +78,8 @@ impl Cfg {
             || self.f_preempt
             || self.f_sink_err
             || self.f_dtor
-            || self.f_reent)
+            || self.f_reent
+            || self.f_yield)
     }
 
     pub fn describe(&self) -> String {
@@ -70,8 +90,8 @@ impl Cfg {
         format!(
             "threads<={} steps={} w(set,read,op,spawn,exit,die,sweep)={:?} \
              classes(witness,wide,exact,panicking)={:?} faults[panic={} die={} \
-             exit={} preempt={} sinkerr={} dtor={} reent={}] personality={} shape={} \
-             builder%={} ref={} kinds={}",
+             exit={} preempt={} sinkerr={} dtor={} reent={} yield={}] personality={} shape={} \
+             builder%={} ref={} churn={:?} repeat%={} kinds={}",
             self.max_threads,
             self.n_steps,
             self.w,
@@ -83,10 +103,13 @@ impl Cfg {
             self.f_sink_err as u8,
             self.f_dtor as u8,
             self.f_reent as u8,
+            self.f_yield as u8,
             PERSONALITY_NAMES[self.personality],
             ["flat", "chain", "tree"][self.spawn_shape as usize],
             self.builder_pct,
             if self.ref_per_event { "per-event" } else { "shared" },
+            self.churn,
+            self.repeat_pct,
             kinds.join(",")
         )
     }
@@ -136,6 +159,9 @@ pub fn gen_cfg(rng: &mut Rng, tier_thorough: bool) -> Cfg {
         }
     }
     let [f_panic, f_die, f_exit, f_preempt, f_sink_err, f_dtor, f_reent] = f;
+    // drawn only when yields are enabled, so that the hook-free build
+    // generates exactly the plans it always did
+    let f_yield = yields_enabled() && !fault_free && rng.pct(75);
     if f_exit {
         w[4] = rng.range(1, 10) as u32;
     }
@@ -172,12 +198,21 @@ pub fn gen_cfg(rng: &mut Rng, tier_thorough: bool) -> Cfg {
         f_sink_err,
         f_dtor,
         f_reent,
+        f_yield,
         personality: rng.usize_below(N_PERSONALITIES),
         spawn_shape: rng.below(3) as u8,
         builder_pct: [0u32, 30, 100][rng.usize_below(3)],
         ref_per_event: tier_thorough && rng.below(10) == 0,
+        ref_process: tier_thorough && rng.below(50) == 0,
         distinct_mode_pct: rng.range(40, 95) as u32,
         pct_depth: rng.range(1, 3) as u32,
+        churn: if rng.below(40) == 0 {
+            let n = if tier_thorough && rng.pct(25) { rng.range(260, 1100) } else { rng.range(65, 260) };
+            Some((rng.below(n_steps as u64) as u32, n as u16, rng.below(8) as u8))
+        } else {
+            None
+        },
+        repeat_pct: [0u32, 10, 25, 50][rng.usize_below(4)],
     }
 }
 
@@ -654,6 +689,31 @@ struct GThread {
     dying: bool,
 }
 
+/// Wrap an operation into a step; in the hooks build, choose the library
+/// scheduling points at which the thread is pre-empted mid-operation.
+/// Returns the step and the number of resumes it is expected to need.
+fn op_step(rng: &mut Rng, cfg: &Cfg, tid: u32, op: Op, die: bool) -> (Step, u32) {
+    let mut parked = match &op {
+        Op::Fmt { pauses, .. } => pauses.len() as u32,
+        _ => 0,
+    };
+    let mut yields: Vec<u16> = Vec::new();
+    if cfg.f_yield && rng.pct(55) {
+        // a rounding operation passes 4 scheduling points (helper entry,
+        // round_quot entry, default(), mode resolved)
+        for _ in 0..rng.range(1, 2) {
+            let at = rng.range(1, 5) as u16;
+            if !yields.contains(&at) {
+                yields.push(at);
+            }
+        }
+        yields.sort();
+        parked += yields.len() as u32;
+    }
+    let action = if die { Action::Die(op) } else { Action::Op(op) };
+    (Step { tid, action, yields }, parked)
+}
+
 fn pick_kind(rng: &mut Rng, cfg: &Cfg) -> usize {
     // Display is the only operation with a mid-operation seam: when
     // pre-emption or sink errors are enabled, make it frequent
@@ -728,8 +788,17 @@ pub fn gen_plan(seed: u64, idx: u64, tier_thorough: bool) -> Generated {
 
     let n = cfg.n_steps;
     let mut i = 0u32;
+    let mut pool: Vec<Op> = Vec::new();
     while i < n && !live.is_empty() {
         i += 1;
+        if let Some((at, cn, cm)) = cfg.churn {
+            if at + 1 == i {
+                // many short-lived threads, spawned by some thread that is not parked
+                if let Some(t) = live.iter().find(|t| t.parked == 0) {
+                    steps.push(Step::new(t.id, Action::Churn { n: cn, m: cm }));
+                }
+            }
+        }
         // ---- who acts
         let mut was_forced = false;
         let slot: usize = if !forced.is_empty() {
@@ -814,20 +883,19 @@ pub fn gen_plan(seed: u64, idx: u64, tier_thorough: bool) -> Generated {
                     if rng.pct(60) {
                         let m = pick_mode(&mut rng, &cfg, &live, t2);
                         live[s2].mode = m;
-                        steps.push(Step { tid: t2, action: Action::Set(m) });
+                        steps.push(Step::new(t2, Action::Set(m)));
                     } else {
                         let kind = pick_kind(&mut rng, &cfg);
                         let op = gen_op(&mut rng, &cfg, kind, Class::Witness);
-                        if let Op::Fmt { pauses, .. } = &op {
-                            live[s2].parked = pauses.len() as u32;
-                        }
-                        steps.push(Step { tid: t2, action: Action::Op(op) });
+                        let (st, parked) = op_step(&mut rng, &cfg, t2, op, false);
+                        live[s2].parked = parked;
+                        steps.push(st);
                     }
                     continue;
                 }
             }
             live[slot].parked -= 1;
-            steps.push(Step { tid, action: Action::Resume });
+            steps.push(Step::new(tid, Action::Resume));
             if live[slot].parked == 0 && live[slot].dying {
                 live.remove(slot);
             }
@@ -860,13 +928,26 @@ pub fn gen_plan(seed: u64, idx: u64, tier_thorough: bool) -> Generated {
             }
             1 => Action::Read,
             2 => {
-                let kind = pick_kind(&mut rng, &cfg);
-                let class = pick_class(&mut rng, &cfg);
-                let op = gen_op(&mut rng, &cfg, kind, class);
-                if let Op::Fmt { pauses, .. } = &op {
-                    live[slot].parked = pauses.len() as u32;
-                }
-                Action::Op(op)
+                let op = if !pool.is_empty() && rng.pct(cfg.repeat_pct) {
+                    // the very same call again (same operands), typically on
+                    // another thread or after a set
+                    rng.pick(&pool).clone()
+                } else {
+                    let kind = pick_kind(&mut rng, &cfg);
+                    let class = pick_class(&mut rng, &cfg);
+                    let op = gen_op(&mut rng, &cfg, kind, class);
+                    if pool.len() < 6 {
+                        pool.push(op.clone());
+                    } else {
+                        let k = rng.usize_below(6);
+                        pool[k] = op.clone();
+                    }
+                    op
+                };
+                let (st, parked) = op_step(&mut rng, &cfg, tid, op, false);
+                live[slot].parked = parked;
+                steps.push(st);
+                continue;
             }
             3 => {
                 // who is the parent depends on the spawn shape
@@ -882,16 +963,15 @@ pub fn gen_plan(seed: u64, idx: u64, tier_thorough: bool) -> Generated {
                 let probe_early = cfg.f_dtor && rng.pct(40);
                 let parent = live[pslot].id;
                 live.push(GThread { id: child, mode: HALF_EVEN, parked: 0, prio: rng.next_u64(), dying: false });
-                steps.push(Step { tid: parent, action: Action::Spawn { child, api, probe_early } });
+                steps.push(Step::new(parent, Action::Spawn { child, api, probe_early }));
                 // bias: the child acts right away half of the time (inheritance shows on its first op)
                 if rng.pct(50) {
                     let kind = pick_kind(&mut rng, &cfg);
                     let op = gen_op(&mut rng, &cfg, kind, Class::Witness);
                     let cs = live.len() - 1;
-                    if let Op::Fmt { pauses, .. } = &op {
-                        live[cs].parked = pauses.len() as u32;
-                    }
-                    steps.push(Step { tid: child, action: Action::Op(op) });
+                    let (st, parked) = op_step(&mut rng, &cfg, child, op, false);
+                    live[cs].parked = parked;
+                    steps.push(st);
                 }
                 continue;
             }
@@ -904,31 +984,32 @@ pub fn gen_plan(seed: u64, idx: u64, tier_thorough: bool) -> Generated {
                 let kind = pick_kind(&mut rng, &cfg);
                 let class = if rng.pct(60) { Class::Panicking } else { Class::Witness };
                 let op = gen_op(&mut rng, &cfg, kind, class);
-                if let Op::Fmt { pauses, .. } = &op {
-                    if !pauses.is_empty() {
-                        // crash while parked inside Display: the thread stays
-                        // in the generator's books until its resumes are spent
-                        live[slot].parked = pauses.len() as u32;
-                        live[slot].dying = true;
-                        steps.push(Step { tid, action: Action::Die(op) });
-                        continue;
-                    }
+                let (st, parked) = op_step(&mut rng, &cfg, tid, op, true);
+                if parked > 0 {
+                    // crash while parked in the middle of the operation: the
+                    // thread stays in the generator's books until its resumes
+                    // are spent
+                    live[slot].parked = parked;
+                    live[slot].dying = true;
+                } else {
+                    live.remove(slot);
                 }
-                live.remove(slot);
-                Action::Die(op)
+                steps.push(st);
+                continue;
             }
             _ => {
-                steps.push(Step { tid: ALL, action: Action::Sweep });
+                steps.push(Step::new(ALL, Action::Sweep));
                 continue;
             }
         };
-        steps.push(Step { tid, action });
+        steps.push(Step::new(tid, action));
     }
 
     let note = format!("seed={:#018x} idx={} cfg: {}", seed, idx, cfg.describe());
     Generated {
         plan: Plan {
             ref_per_event: cfg.ref_per_event,
+            ref_process: cfg.ref_process,
             root_probe_early,
             root_api_builder,
             root_is_main: false,
